@@ -255,12 +255,15 @@ def main():
     # ---------------- beams ----------------
     for et in (["SEG2", "SEG3"] if not thorough else ["SEG2", "SEG3", "SEG4", "SEG5"]):
         for timo in (False, True):
-            for bdim in (2, 3):
+            # a random direction from a point off the axes, then members lying ON a coordinate axis, described in both directions
+            # (a member on the x-axis is the only one whose elements are not expressed in their own frame)
+            for bdim, start, fixed in ((2, (0.5, -0.25, 0.0), None), (3, (0.5, -0.25, 0.0), None), (2, (0.0, 0.0, 0.0), (1, 0, 0)), (2, (4.0, 0.0, 0.0), (-1, 0, 0)),
+                                       (3, (4.0, 0.0, 0.0), (-1, 0, 0)), (2, (0.0, 1.0, 0.0), (0, -1, 0)), (3, (0.0, 0.0, 2.0), (0, 0, -1))):
                 L = 4.0
                 sect = Mesher().Mesh_2D(Domain(Point(), Point(0.5, 0.25)))
-                d = np.array([rng.randint(1, 4), rng.randint(-3, 3), rng.randint(-3, 3) if bdim == 3 else 0], dtype=float)
+                d = np.array([rng.randint(1, 4), rng.randint(-3, 3), rng.randint(-3, 3) if bdim == 3 else 0], dtype=float) if fixed is None else np.array(fixed, dtype=float)
                 d = d / np.linalg.norm(d) * L
-                beams = [Models.Beam.Isotropic(bdim, Line(Point(0.5, -0.25, 0.0), Point(0.5 + d[0], -0.25 + d[1], d[2]), L / 3), sect, 1000.0, 0.25)]
+                beams = [Models.Beam.Isotropic(bdim, Line(Point(*start), Point(start[0] + d[0], start[1] + d[1], start[2] + d[2]), L / 3), sect, 1000.0, 0.25)]
                 mesh = Mesher().Mesh_Beams(beams, elemType=ElemType(et))
                 try:
                     s = Simulations.Beam(mesh, Models.Beam.BeamStructure(beams), useTimoshenko=timo)
@@ -274,8 +277,8 @@ def main():
                 nrig = 3 if bdim == 2 else 6
                 R = rigid_modes(mesh.coord, bdim, beam=True)
                 sym, lmin, kdim, kr = analyse(K, nrig, R)
-                ident = dict(beam=et, timoshenko=timo, dim=bdim, direction=d.tolist(), Ne=int(mesh.Ne))
-                res.case(("beam", et, timo, bdim))
+                ident = dict(beam=et, timoshenko=timo, dim=bdim, start=list(start), direction=d.tolist(), Ne=int(mesh.Ne))
+                res.case(("beam", et, timo, bdim, start, tuple(d.tolist())))
                 res.count("beam")
                 if sym > 1e-12 or lmin < -1e-10:
                     res.fail(f"beam K not symmetric PSD timo={timo} dim={bdim}", f"symmetry {sym:.1e}, min eigenvalue ratio {lmin:.1e}", ident)
